@@ -6,10 +6,13 @@ Independent confirmation of a blind mutant delivered in /tmp/mut-<ID>-out/m<k>: 
 /verif/seeded/<ID>/m<k>/ with a meta.json recording what was run.  The worktree is removed afterwards."""
 import json, os, re, shutil, subprocess, sys, time
 
+TMP = "/tmp/vm-tmp-%d" % os.getpid()
+os.makedirs(TMP, exist_ok=True)
+
 def sh(cmd, cwd, timeout=1500):
     try:
-        p = subprocess.run(cmd, cwd=cwd, shell=True, capture_output=True, text=True, timeout=timeout,
-                           env=dict(os.environ, CARGO_NET_OFFLINE="true"))
+        p = subprocess.run(["bash", "-o", "pipefail", "-c", cmd], cwd=cwd, capture_output=True, text=True, timeout=timeout,
+                           env=dict(os.environ, CARGO_NET_OFFLINE="true", TMPDIR=TMP))
         return p.returncode, p.stdout + p.stderr
     except subprocess.TimeoutExpired as e:
         return 124, "TIMEOUT"
@@ -32,8 +35,8 @@ def main():
                 results[k] = {"ok": False, "why": "no patch.diff"}
                 continue
             r = {"ok": False}
-            sh("git checkout -- . && git clean -fdq -e target", wt)
-            rc, out = sh("git apply --3way %s/patch.diff || git apply %s/patch.diff" % (src, src), wt)
+            sh("git reset -q --hard HEAD && git clean -fdq -e target", wt)
+            rc, out = sh("git apply %s/patch.diff" % src, wt)
             if rc != 0:
                 r["why"] = "patch does not apply on current HEAD: " + out[-500:]
                 results[k] = r
@@ -70,6 +73,7 @@ def main():
                 continue
             cmd = open(src + "/demo_cmd.txt").read().strip()
             cmd_line = " && ".join(l for l in cmd.split("\n") if l.strip() and not l.strip().startswith("#"))
+            cmd_line = cmd_line.replace("/tmp/mut-%s-out" % pid, "@@OUT@@").replace("/tmp/mut-%s" % pid, wt).replace("@@OUT@@", "/tmp/mut-%s-out" % pid)
             rc_with, out_with = sh(cmd_line, wt, timeout=1800)
             # demo without the patch
             sh("git apply -R %s/patch.diff" % src, wt)
@@ -78,9 +82,19 @@ def main():
             r["demo_rc_with_patch"] = rc_with
             r["demo_rc_without_patch"] = rc_wo
             r["demo_tail_with"] = out_with[-600:]
+            open("/tmp/vm-last-with.txt","w").write(out_with); open("/tmp/vm-last-without.txt","w").write(out_wo)
             r["demo_tail_without"] = out_wo[-300:]
+            failed_re = re.compile(r"^(?:test (\S+) \.\.\. FAILED|\s+FAIL \[[^\]]*\]\s+(?:\(\s*\d+/\d+\)\s+)?\S+\s+(\S+))", re.M)
+            fw = {a or b for a, b in failed_re.findall(out_with)}
+            fo = {a or b for a, b in failed_re.findall(out_wo)}
+            r["failed_only_with_patch"] = sorted(fw - fo)
             if rc_with != 0 and rc_wo == 0:
                 r["ok"] = True
+            elif rc_with != 0 and (fw - fo) and "error: could not compile" not in out_with:
+                # the demo command also runs tests that fail on the unchanged tree (exit status
+                # non-zero both ways): accept when named demo tests fail only with the patch
+                r["ok"] = True
+                r["note"] = "judged by the set of FAILED tests, not by exit status"
             else:
                 r["why"] = "demo does not discriminate (rc with=%s, without=%s)" % (rc_with, rc_wo)
             results[k] = r
@@ -102,6 +116,7 @@ def main():
         sh("git -C /repo worktree remove --force %s" % wt, "/")
         shutil.rmtree(wt, ignore_errors=True)
         sh("git -C /repo worktree prune", "/")
+        shutil.rmtree(TMP, ignore_errors=True)
     os.makedirs("/verif/seeded/%s" % pid, exist_ok=True)
     json.dump(results, open("/verif/seeded/%s/confirm.json" % pid, "w"), indent=1)
     for k, r in results.items():
